@@ -4,9 +4,9 @@ cd /verif
 for d in seeded/*/; do
   n=$(basename $d); p=${n%%-*}
   if ! git -C /repo apply --check /verif/$d/patch.diff 2>/dev/null; then echo "$n $p DOES-NOT-APPLY"; continue; fi
-  out=$(tools/seedtest.sh $d/patch.diff $p 2>&1)
-  if echo "$out" | grep -q "VIOLATION.*no-failing-input-found"; then r="caught(no-failing-input-found)";
-  elif echo "$out" | grep -q "VIOLATION"; then r="caught(concrete replay)";
+  out=$(timeout 1200 tools/seedtest.sh $d/patch.diff $p 2>&1)
+  if echo "$out" | grep "VIOLATION" | grep -qv "no-failing-input-found"; then r="caught(concrete replay)";
+  elif echo "$out" | grep -q "VIOLATION"; then r="caught(no-failing-input-found)";
   else r="MISSED"; fi
   echo "$n $p $r"
 done
